@@ -35,6 +35,7 @@ func init() {
 	ruleText["R06.10"] = "in the deferred function of runCfg and its in-package callees (callDeferred and Walk excepted), every constant index X.child[k] lies under a test of X.kind or len(X.child) (enclosing if/switch/case, left operand of &&, or an earlier guard that leaves the block)"
 	ruleText["R06.11"] = "in every generator containing reflect.Value.CallSlice, each run-time closure that appends to frame.deferred also contains a CallSlice call (the ellipsis of f(s...) survives deferral)"
 	ruleText["R06.12"] = "in every deferred recover, the store of the recovered value into frame.recovered lies under no condition on frame.recovered itself: a panic raised by a deferred function replaces the one in progress"
+	ruleText["R06.15"] = "every path on the static call graph from an exported method of *Interpreter to a compile pass ((*Interpreter).ast, gta, cfg) passes a function with a deferred, non-re-panicking recover: a fault while compiling is an error of Eval/Compile, never a panic of the host"
 	ruleText["R06.13"] = "in the closures of the generator of the panic builtin, panic(v) with v of static type reflect.Value lies under a condition on v.IsValid()/v.CanInterface(): otherwise the panic carries v.Interface()"
 	ruleText["R06.14"] = "the generator bound in the universe table to each builtin Go allows in a defer statement (close, copy, delete, panic, print, println) calls the shared defer wrapper (the function testing deferStmt and recording into frame.deferred)"
 	ruleText["R06.5"] = "a converting recover assigns Panic{Value: <recovered>, ...} to the error result of its function"
@@ -146,6 +147,37 @@ func c06R1(ic *IC, r *Report) {
 	}
 	if reaching < 4 {
 		r.Errorf("R06.1: only %d exported entry points reach runCfg on the static call graph (Eval, EvalPath, Execute, ... expected)", reaching)
+	}
+	// R06.15 (shared as R12.14): the same must-pass-through for the compile passes. An ill-typed
+	// or unsupported program that makes a pass fault (the post-order callback of cfg re-panics
+	// with the position) must come back from Eval/Compile as an error, not as a host panic.
+	nComp := 0
+	for _, sinkName := range [][2]string{{"Interpreter", "cfg"}, {"Interpreter", "gta"}, {"Interpreter", "ast"}} {
+		cs := ic.ssaMeth(sinkName[0], sinkName[1])
+		if cs == nil {
+			r.Errorf("R06.15: anchor (*%s).%s not resolved", sinkName[0], sinkName[1])
+			continue
+		}
+		for _, e := range entries {
+			set, _ := g.reachSet(true, e)
+			if !set[cs] {
+				continue
+			}
+			// reachable otherwise than through the lazy type finalisation (frozen cut, see R08.5)?
+			if !g.reachesCut(e, cs, runtimeReachCuts) {
+				continue
+			}
+			nComp++
+			key := "entry/" + e.Name() + "->" + sinkName[1]
+			if p := g.unprotectedPathCut(e, cs, true, runtimeReachCuts); p != nil {
+				r.Fail("R06.15", key, ic.pos(e.Pos()), "unprotected path to the compile pass: "+strings.Join(p, " -> ")+": a fault of the pass on an ill-typed or unsupported program (if 1 {}, []int{y} with y undefined, int(), var a [1<<64]int) is a panic of the host instead of an error returned by the entry point")
+			} else {
+				r.Pass("R06.15", key, ic.pos(e.Pos()), "every path to the pass goes through a converting recover")
+			}
+		}
+	}
+	if nComp < 6 {
+		r.Errorf("R06.15: only %d (entry point, compile pass) pairs found on the static call graph", nComp)
 	}
 	r.Info["entry_points_reaching_execution"] = reaching
 	r.Info["goroutine_roots_reaching_execution"] = nGo
